@@ -160,6 +160,8 @@ class SimFS(object):
         self.tagger = None  # callable() -> (emitter, chain)
         self._fds = {}
         self.stat_time = 1.0e9  # what os.stat reports as mtime (set from the simulated clock)
+        self.mtick = {}  # path -> sequence number of its last modification (mtimes differ per write)
+        self._wseq = 0
 
     # ---- state helpers (used by the harness, not by the system under test)
     def norm(self, path):
@@ -188,6 +190,7 @@ class SimFS(object):
             content = content.encode("utf-8")
         self.mkdir(posixpath.dirname(p))
         self.files[p] = bytearray(content)
+        self.touch(p)
 
     def get(self, path):
         d = self.files.get(self.norm(path))
@@ -256,6 +259,7 @@ class SimFS(object):
             data = bytes(self.files.get(path, b""))
             if SELFBREAK:
                 data = self._selfbreak(path, data)
+            self.touch(path)
             self.trace.written[path] = data
             self.trace.open_write_unclosed.discard(path)
             self.trace.ev("close", path, sha1(data))
@@ -450,6 +454,7 @@ class SimFS(object):
         self.trace.ev("rename", a, b)
         data = self.files.pop(a)
         self.files[b] = data
+        self.mtick[b] = self.mtick.pop(a, 0) or self._wseq
         # the destination now holds what this run wrote to the source
         self.trace.written.pop(a, None)
         self.trace.written[b] = bytes(data)
@@ -498,8 +503,14 @@ class SimFS(object):
         else:
             raise FileNotFoundError(errno.ENOENT, "No such file or directory", str(path))
         self.trace.ev("stat", p, size)
-        t = self.stat_time
-        return os.stat_result((md, 1, 1, 1, 0, 0, size, t, t, t))
+        # a file that is written again gets a later time stamp (1 ms per modification): code that
+        # keys caches on (size, mtime), like filecmp, must see rewritten files as new
+        t = self.stat_time + 0.001 * self.mtick.get(p, 0)
+        return os.stat_result((md, 1 + self.mtick.get(p, 0), 1, 1, 0, 0, size, t, t, t))
+
+    def touch(self, p):
+        self._wseq += 1
+        self.mtick[p] = self._wseq
 
     def isdir(self, path):
         try:
